@@ -5,8 +5,8 @@
 use crate::http::{Endpoint, Req, Resp};
 use kanidm_client::KanidmClientBuilder;
 use kanidm_hsm_crypto::{
-    provider::{BoxedDynTpm, SoftTpm, Tpm},
-    structures::StorageKey,
+    provider::{BoxedDynTpm, SoftTpm, Tpm, TpmHmacS256},
+    structures::{HmacS256Key, StorageKey},
     AuthValue,
 };
 use serde_json::{json, Value as J};
@@ -140,6 +140,9 @@ pub struct Machine {
     pub hsm: Option<BoxedDynTpm>,
     pub db: Option<Db>,
     pub rx: Option<mpsc::Receiver<Id>>,
+    /// a second HMAC key sealed under the same machine key (cache helper level of C44)
+    pub hmac: HmacS256Key,
+    pub db_path: String,
 }
 
 fn new_tpm() -> (BoxedDynTpm, StorageKey) {
@@ -152,6 +155,10 @@ fn new_tpm() -> (BoxedDynTpm, StorageKey) {
 
 /// One "machine": its own soft TPM context and machine key (hence its own sealed HMAC key), its own cache Db.
 pub async fn machine(addr: &str, allow: Vec<String>, with_resolver: bool) -> Machine {
+    machine_at(addr, allow, with_resolver, "").await
+}
+/// `db_path` = "" for an in-memory cache, else a sqlite file (lets the driver copy cached records between machines).
+pub async fn machine_at(addr: &str, allow: Vec<String>, with_resolver: bool, db_path: &str) -> Machine {
     let client = KanidmClientBuilder::new()
         .address(addr.to_string())
         .enable_native_ca_roots(false)
@@ -160,7 +167,7 @@ pub async fn machine(addr: &str, allow: Vec<String>, with_resolver: bool) -> Mac
         .request_timeout(2)
         .build()
         .unwrap_or_else(|_| fail("client build"));
-    let db = Db::new("").unwrap_or_else(|_| fail("cache db"));
+    let db = Db::new(db_path).unwrap_or_else(|_| fail("cache db"));
     let (mut hsm, mk) = new_tpm();
     let provider = {
         let mut dbtxn = db.write().await;
@@ -184,10 +191,16 @@ pub async fn machine(addr: &str, allow: Vec<String>, with_resolver: bool) -> Mac
         dbtxn.commit().unwrap_or_else(|_| fail("cache db commit"));
         p
     };
+    let hmac = {
+        let t: &mut dyn TpmHmacS256 = &mut *hsm;
+        let l = t.hmac_s256_create(&mk).unwrap_or_else(|_| fail("hmac create"));
+        t.hmac_s256_load(&mk, &l).unwrap_or_else(|_| fail("hmac load"))
+    };
     drop(mk);
+    let db_path = db_path.to_string();
     let provider = Arc::new(provider);
     if !with_resolver {
-        return Machine { provider, resolver: None, hsm: Some(hsm), db: Some(db), rx: None };
+        return Machine { provider, resolver: None, hsm: Some(hsm), db: Some(db), rx: None, hmac, db_path };
     }
     let system_provider = SystemProvider::new().unwrap_or_else(|_| fail("system provider"));
     let (resolver, rx) = Resolver::new(
@@ -205,5 +218,5 @@ pub async fn machine(addr: &str, allow: Vec<String>, with_resolver: bool) -> Mac
     )
     .await
     .unwrap_or_else(|_| fail("resolver"));
-    Machine { provider, resolver: Some(resolver), hsm: None, db: None, rx: Some(rx) }
+    Machine { provider, resolver: Some(resolver), hsm: None, db: None, rx: Some(rx), hmac, db_path }
 }
